@@ -90,7 +90,29 @@ def gen_case(tape, tier):
         # which then continues it (cleanup=False) under the case's executor and storage: together they are one full run
         case["restricted_first"] = bool(tape.coin(0.5, "restricted-first")) and cfg["run_folder"]
         case["restricted_swap"] = bool(case["restricted_first"] and tape.coin(0.4, "swap-memory-backend"))
+    cands = [fd for fd in w["functions"] if _only_elementwise_consumers(w, fd)]
+    if cands and tape.coin(0.5, "masked-values"):
+        # a function with a generated axis returns a masked array of its own (some entries masked); every consumer takes
+        # the output element by element: whatever the storage, it is handed the data
+        tape.pick(cands, "masked-fn")["masked_out"] = True
     return case
+
+
+def _only_elementwise_consumers(w, fd):
+    from sim.interp import _parse
+
+    if not (fd.get("out_shape") and fd.get("mapspec") and len(fd["outputs"]) == 1) or fd["mapspec"].strip().startswith("..."):
+        return False  # (a function without mapped inputs is called once and its array is the output as it is, mask and all)
+    o = fd["outputs"][0]
+    rank = len(_parse(fd["mapspec"])[1])
+    users = [g for g in w["functions"] if o in g["params"]]
+    for g in users:
+        if not g.get("mapspec") or g["mapspec"].strip().startswith("..."):
+            return False
+        spec = _parse(g["mapspec"])[0].get(o)
+        if spec is None or ":" in spec or len(spec) != rank:
+            return False
+    return bool(users)
 
 
 def _uses_threads(ex):
@@ -372,6 +394,8 @@ def _run_case(case, exec_seed, exec_tape, stack):
     pr = dict(sim.probes)
     if len(runs) > 1:
         pr["second_run_on_same_pipeline"] = 1
+    if any(fd.get("masked_out") for fd in w["functions"]):
+        pr["masked_values_along_generated_axis"] = 1
     pr[f"entry:{cfg['entry']}"] = 1
     pr[f"executor:{cfg['executor']['kind']}"] = 1
     for s in ([cfg["storage"]] if isinstance(cfg["storage"], str) else set(cfg["storage"].values())):
